@@ -117,19 +117,29 @@ def check(run, tier):
                     I_ = kw["interp"]
                     st = I_.read(kw["state"], a0.cell, a0.path, ("gate",)) if isinstance(a0, Ref) and a0.cell is not None else None
                     seen["recv"] = st
+                    # what each field of the receiver points to, at the moment the validator starts
+                    if isinstance(st, Struct):
+                        seen["pointees"] = [I_.read(kw["state"], x.cell, x.path, ("gatef", n_)) if isinstance(x, Ref) and x.cell is not None else None for n_, x in enumerate(st.fields)]
+
+            def mk_gate(I_, S_, inst_, args_):
+                # the constructor's own arguments (values behind references for the borrowed constructor)
+                seen["arg_values"] = [I_.read(S_, a_.cell, a_.path, ("gatea", n_)) if isinstance(a_, Ref) and a_.cell is not None else a_ for n_, a_ in enumerate(args_)]
+                return args_
 
             I = Exec(f, M, INVARIANTS)
             I.hooks.append(hook)
-            R, frame, args = I.analyse_root(insts[r])
+            R, frame, args = I.analyse_root(insts[r], mk_gate)
             recv = seen.get("recv")
-            ok = isinstance(recv, Struct) and len(recv.fields) == 4
+            ok = isinstance(recv, Struct) and len(recv.fields) == 4 and len(seen.get("pointees", [])) == 4 and len(seen.get("arg_values", [])) == 4
             if ok:
                 for i, fld in enumerate(recv.fields):
                     a = args[i]
-                    if isinstance(a, Ref):  # borrowed constructor: the very same reference
-                        ok = ok and isinstance(fld, Ref) and fld.cell == a.cell and fld.path == a.path
-                    else:  # owned constructor: a reference to the parameter itself
-                        ok = ok and isinstance(fld, Ref) and fld.cell == (frame, i + 1) and fld.path == ()
+                    if isinstance(a, Ref) and isinstance(fld, Ref) and fld.cell == a.cell and fld.path == a.path:
+                        continue  # borrowed constructor: the very same reference
+                    # otherwise: a reference to the argument's value, wherever it was moved to (the parameter itself, or
+                    # a field of the zone built from it before validation)
+                    pv, av = seen["pointees"][i], seen["arg_values"][i]
+                    ok = ok and isinstance(fld, Ref) and pv is not None and same_shape(pv, av)
             run.obligation(ok)
             if not ok:
                 run.finding("GATE", "%s|%s|receiver" % (cfg, r), "the validator called by %s is not applied to exactly the constructor's four arguments" % r, insts[r].get("span"))
@@ -222,7 +232,25 @@ def check(run, tier):
             run.finding("DESIGNATION", "%s|designation|floor" % cfg, "fewer than 3 roots hand out a checked LocalTimeType/TzAsciiStr (%d): the rule would pass vacuously" % len(des_ok))
         # ---- EQ-FIELDS
         if validators:
-            V = list(validators.values())[0]
+            V0 = list(validators.values())[0]
+            # the function that reports InconsistentExtraRule: the validator or a helper it calls (depth <= 3)
+            V, seen_v, frontier = None, set(), [V0]
+            for _depth in range(4):
+                nxt = []
+                for cand in frontier:
+                    if cand["id"] in seen_v:
+                        continue
+                    seen_v.add(cand["id"])
+                    cc = CFG(cand)
+                    if any(st["k"] == "assign" and st["rv"]["k"] == "aggregate" and st["rv"].get("variant") == "InconsistentExtraRule" for b in cc.blocks for st in b["stmts"]):
+                        V = cand
+                        break
+                    nxt.extend(f.instances[r_["inst"]] for _, _, r_ in cc.calls() if r_ is not None and r_.get("local") and "inst" in r_ and f.instances[r_["inst"]].get("body") is not None)
+                if V is not None:
+                    break
+                frontier = nxt
+            if V is None:
+                V = V0
             cv = CFG(V)
             errb = [i for i, b in enumerate(cv.blocks) if any(st["k"] == "assign" and st["rv"]["k"] == "aggregate" and st["rv"].get("variant") == "InconsistentExtraRule" for st in b["stmts"])]
             eqs = []
